@@ -309,6 +309,11 @@ pub struct ProbeShared {
     pub established: HashMap<PeerId, Vec<ConnectionId>>,
     /// snapshot of `established[peer]` taken at the instant each NotifyHandler left `poll`
     pub emitted: Vec<(ProbeIn, PeerId, Option<ConnectionId>, Vec<ConnectionId>)>,
+    /// per emitted notification (same index as `emitted`): members of the snapshot whose handler had already
+    /// started closing (poll_close reached => command channel closed) at emission time
+    pub emitted_already_closing: Vec<Vec<ConnectionId>>,
+    /// remote-protocol reports every new handler makes in its very first poll: (added, names)
+    pub initial_remote_reports: Vec<(bool, Vec<String>)>,
     waker: Option<Waker>,
 }
 
@@ -364,6 +369,8 @@ impl Probe {
             default_keep_alive: true,
             established: HashMap::new(),
             emitted: vec![],
+            emitted_already_closing: vec![],
+            initial_remote_reports: vec![],
             waker: None,
         }));
         (Probe { shared: shared.clone() }, ProbeCtl(shared))
@@ -386,7 +393,7 @@ impl Probe {
             peer,
             protocols: s.default_protocols.clone(),
             keep_alive: s.default_keep_alive,
-            cmds: VecDeque::new(),
+            cmds: s.initial_remote_reports.iter().map(|(a, p)| HCmd::ReportRemote { added: *a, protocols: p.clone() }).collect(),
             log: vec![],
             streams: HashMap::new(),
             next_inbound_tag: 0,
@@ -496,6 +503,8 @@ impl NetworkBehaviour for Probe {
                     libp2p_swarm::NotifyHandler::One(c) => Some(*c),
                     libp2p_swarm::NotifyHandler::Any => None,
                 };
+                let closing: Vec<ConnectionId> = snap.iter().filter(|c| s.handlers.get(c).map(|h| h.with(|x| x.log.iter().any(|e| matches!(e, HEv::PollClose)))).unwrap_or(false)).copied().collect();
+                s.emitted_already_closing.push(closing);
                 s.emitted.push((event.clone(), *peer_id, one, snap));
             }
             return Poll::Ready(ev);
